@@ -308,12 +308,14 @@ static void mi_heap_free(mi_heap_t* heap) {
 }
 
 // return a heap on the same thread as `heap` specialized for the specified tag (if it exists)
-mi_heap_t* _mi_heap_by_tag(mi_heap_t* heap, uint8_t tag) {
+// that may hold memory with the given `memid` (as a heap can be bound to a specific arena)
+mi_heap_t* _mi_heap_by_tag(mi_heap_t* heap, uint8_t tag, mi_memid_t memid) {
   if (heap->tag == tag && !heap->no_reclaim) {
     return heap;
   }
   for (mi_heap_t *curr = heap->tld->heaps; curr != NULL; curr = curr->next) {
-    if (curr->tag == tag && !curr->no_reclaim) {   // never reclaim into a heap that can be destroyed
+    if (curr->tag == tag && !curr->no_reclaim   // never reclaim into a heap that can be destroyed
+        && _mi_heap_memid_is_suitable(curr, memid)) {
       return curr;
     }
   }
